@@ -3,12 +3,12 @@ from .. import scriptprop
 
 ID = "C07"
 RULE = ("histories from NewSorted over initial slices of length 0..12 (unsorted, with duplicates, with spare capacity) then add/remove(present|absent)/removeat/index/contains/get/len/slice/input, "
-        "universe 6, less in {<, >, x/2<y/2 (ties between distinguishable values)}; out-of-range positions are part of the property (panics); deep histories: 40..300 (thorough: ..5000) elements shrunk to almost nothing and grown again; non-trivial = at least 4 mutations")
+        "universe 6, less in {<, >, x/2<y/2 (ties between distinguishable values)}, NewSortedOrdered over ints and over strings (the caller's slice re-observed); out-of-range positions are part of the property (panics); deep histories: 40..300 (thorough: ..5000) elements shrunk to almost nothing and grown again; non-trivial = at least 4 mutations")
 ASSUMPTIONS = ["sort.SliceStable and sort.Search are modelled by reference implementations proved to contract"]
 
 
 def history(rng, nops, uni):
-    less = rng.randrange(3)
+    less = rng.randrange(5)   # 3, 4: NewSortedOrdered over ints / strings
     init = [rng.randrange(uni) for _ in range(rng.randrange(13))]
     sc = ["new %d [%s] %d" % (less, ",".join(map(str, init)), rng.randrange(5)), "slice", "input"]
     n = len(init)
